@@ -21,7 +21,7 @@ from pvc import contract as C  # noqa: E402
 LEVELS = json.load(open(os.path.join(ROOT, "levels.json"))) if os.path.exists(os.path.join(ROOT, "levels.json")) else {}
 
 
-def _job_worker(conn, cid, params, tier, seed, concrete):
+def _job_worker(conn, cid, params, tier, seed, concrete, prop=None, sample=0):
     """runs in a forked child"""
     try:
         import logging
@@ -38,8 +38,29 @@ def _job_worker(conn, cid, params, tier, seed, concrete):
         p["_tier"] = tier
         p["_seed"] = seed
         ex = Explorer(ct.harness, params=p, seed=seed, **b)
+        if prop:
+            ex.ignore_label = lambda lab, _p=prop: _other_prop(lab, _p)
         t0 = time.time()
-        if concrete is not None:
+        if sample:
+            from pvc.explore import Sampler
+            fails, nrun, nab, err, obl = [], 0, 0, None, {}
+            tlim = 60 if tier == "quick" else 300
+            for i in range(sample):
+                if time.time() - t0 > tlim:
+                    break
+                sub = ex.run_concrete({}, [], sampler=Sampler(seed * 1000003 + i))
+                nrun += 1
+                nab += sub.aborted
+                for k, v in sub.obl_count.items():
+                    obl[k] = obl.get(k, 0) + v
+                if sub.error:
+                    err = sub.error
+                    break
+                if sub.failures:
+                    fails = [f.to_json() for f in sub.failures[:1]]
+                    break
+            out = dict(failures=fails, error=err, obligations=obl, aborted=nab, sampled_runs=nrun, paths=0)
+        elif concrete is not None:
             sub = ex.run_concrete(concrete["inputs"], concrete["choices"])
             out = dict(failures=[f.to_json() for f in sub.failures], error=sub.error,
                        obligations=sub.obl_count, aborted=sub.aborted)
@@ -70,7 +91,7 @@ def run_jobs(jobs, nproc, hard_timeout):
             i = pending.pop(0)
             j = jobs[i]
             pc, cc = ctx.Pipe(duplex=False)
-            pr = ctx.Process(target=_job_worker, args=(cc, j["cid"], j["params"], j["tier"], j["seed"], j.get("concrete")))
+            pr = ctx.Process(target=_job_worker, args=(cc, j["cid"], j["params"], j["tier"], j["seed"], j.get("concrete"), j.get("prop"), j.get("sample", 0)))
             pr.start()
             cc.close()
             running[i] = (pr, pc, time.time())
@@ -135,7 +156,14 @@ def check_property(prop, tier="quick", seed=0, only=None, verbose=False, record_
     jobs = []
     for c in cts:
         for p in c.shapes(tier):
-            jobs.append(dict(cid=c.cid, params=p, tier=tier, seed=seed))
+            jobs.append(dict(cid=c.cid, params=p, tier=tier, seed=seed, prop=prop))
+    # sampled native pass (plain CPython numbers, unpatched code): catches what the exact-real
+    # proxies cannot see (float rounding, operations outside the proxy model)
+    nsample = int(os.environ.get("VERIF_SAMPLES", "120" if tier == "quick" else "1500"))
+    for c in cts:
+        if c.mode in ("B", "U") and not c.budget.get("no_sampling"):
+            for p in c.shapes(tier):
+                jobs.append(dict(cid=c.cid, params=p, tier=tier, seed=seed, prop=prop, sample=nsample))
     nproc = int(os.environ.get("VERIF_NPROC", "16"))
     hard = 600 if tier == "quick" else 3600
     results = run_jobs(jobs, nproc, hard)
@@ -152,8 +180,10 @@ def check_property(prop, tier="quick", seed=0, only=None, verbose=False, record_
     samples = []
     per_contract = {}
     replay_jobs = []
+    sampled_runs = 0
     for j, r in zip(jobs, results):
         cid = j["cid"]
+        sampled_runs += r.get("sampled_runs", 0)
         pc = per_contract.setdefault(cid, dict(jobs=0, paths=0, wall=0.0, labels=set(), failed=set()))
         pc["jobs"] += 1
         pc["paths"] += r.get("paths", 0)
@@ -162,6 +192,8 @@ def check_property(prop, tier="quick", seed=0, only=None, verbose=False, record_
         for k in vc:
             vc[k] += (r.get("vc") or {}).get(k, 0)
         for lab, n in (r.get("obligations") or {}).items():
+            if _other_prop(lab, prop):
+                continue
             o = obligations.setdefault((cid, lab), dict(instances=0, status="discharged"))
             o["instances"] += n
             pc["labels"].add(lab)
@@ -176,6 +208,8 @@ def check_property(prop, tier="quick", seed=0, only=None, verbose=False, record_
         if must and not r.get("error") and not r.get("budget_exhausted"):
             pass
         for f in r.get("failures") or []:
+            if _other_prop(f["label"], prop):
+                continue
             obligations.setdefault((cid, f["label"]), dict(instances=0, status="discharged"))["status"] = "failed"
             pc["failed"].add(f["label"])
             replay_jobs.append((j, f))
@@ -196,7 +230,7 @@ def check_property(prop, tier="quick", seed=0, only=None, verbose=False, record_
                 errors.append((c.cid, {}, "vacuity: cover point %r never reached" % m))
 
     # native replay of every counter model (fresh processes, concrete mode)
-    rj = [dict(cid=j["cid"], params=j["params"], tier=tier, seed=seed,
+    rj = [dict(cid=j["cid"], params=j["params"], tier=tier, seed=seed, prop=prop,
                concrete=dict(inputs=f["inputs"], choices=f["choices"])) for j, f in replay_jobs if f["kind"] in ("sat", "concrete")]
     rres = run_jobs(rj, nproc, 300) if rj else []
     ri = 0
@@ -264,14 +298,14 @@ def check_property(prop, tier="quick", seed=0, only=None, verbose=False, record_
             print(msg)
 
     write_evidence(prop, tier, seed, cts, per_contract, obligations, n_obl, n_dis, tot_paths, vc, samples,
-                   wall, len(vio_seen), known_hits, undecided, errors, jobs)
+                   wall, len(vio_seen), known_hits, undecided, errors, jobs, sampled_runs)
 
     if record_baseline and not violations and not errors and not undecided:
         baseline[prop] = {"%s::%s" % k: v["status"] for k, v in sorted(obligations.items())}
         json.dump(baseline, open(os.path.join(ROOT, "baseline_obligations.json"), "w"), indent=0, sort_keys=True)
 
-    print("%s %s: contracts=%d jobs=%d paths=%d obligations=%d discharged=%d violations=%d undecided=%d errors=%d wall=%.1fs"
-          % (prop, tier, len(cts), len(jobs), tot_paths, n_obl, n_dis, len(vio_seen), len(undecided), len(errors), wall))
+    print("%s %s: contracts=%d jobs=%d paths=%d sampled=%d obligations=%d discharged=%d violations=%d undecided=%d errors=%d wall=%.1fs"
+          % (prop, tier, len(cts), len(jobs), tot_paths, sampled_runs, n_obl, n_dis, len(vio_seen), len(undecided), len(errors), wall))
     if violations:
         return 1
     if errors:
@@ -279,6 +313,16 @@ def check_property(prop, tier="quick", seed=0, only=None, verbose=False, record_
     if undecided:
         return 2
     return 0
+
+
+_TAG = __import__("re").compile(r"\.(C\d\d\d?)\.")
+
+
+def _other_prop(label, prop):
+    """an obligation label may carry the property it decides (``algo.C04.xxx``);
+    when checking another property that obligation is not this check's business"""
+    m = _TAG.search(label)
+    return bool(m and m.group(1) != prop)
 
 
 def _short(p):
@@ -295,7 +339,7 @@ def _jsonable(p):
 
 
 def write_evidence(prop, tier, seed, cts, per_contract, obligations, n_obl, n_dis, tot_paths, vc, samples,
-                   wall, n_viol, known_hits, undecided, errors, jobs):
+                   wall, n_viol, known_hits, undecided, errors, jobs, sampled_runs=0):
     lv = LEVELS.get(prop, {})
     level = lv.get("level", "other")
     modes = sorted({c.mode for c in cts})
@@ -328,7 +372,8 @@ def write_evidence(prop, tier, seed, cts, per_contract, obligations, n_obl, n_di
             obligation_list=obl_list if len(obl_list) <= 400 else obl_list[:400],
             proved_unbounded=[dict(contract=k[0], obligation=k[1]) for k in sorted(u_obl) if obligations[k]["status"] == "discharged"],
             bounded_count=n_obl - len(u_obl),
-            shapes=[dict(contract=j["cid"], params=_jsonable({k: v for k, v in j["params"].items() if not k.startswith("_")})) for j in jobs][:200],
+            sampled_native_runs=sampled_runs,
+            shapes=[dict(contract=j["cid"], params=_jsonable({k: v for k, v in j["params"].items() if not k.startswith("_")})) for j in jobs if not j.get("sample")][:200],
             backends=dict(z3=vc["z3"], cvc5=vc["cvc5"], trivially_true=vc["trivial"], solver_seconds=round(vc["solver_s"], 3)),
             per_contract={cid: dict(jobs=pc["jobs"], paths=pc["paths"], wall_s=round(pc["wall"], 2), obligations=len(pc["labels"])) for cid, pc in per_contract.items()},
             known_findings_printed=[kf.get("what") for kf, _ in known_hits],
@@ -362,7 +407,7 @@ def _z3v():
 
 def replay_file(path):
     rep = json.load(open(path))
-    j = dict(cid=rep["contract"], params=rep["params"], tier=rep.get("tier", "quick"), seed=rep.get("seed", 0),
+    j = dict(cid=rep["contract"], params=rep["params"], tier=rep.get("tier", "quick"), seed=rep.get("seed", 0), prop=rep.get("property"),
              concrete=dict(inputs=rep["inputs"], choices=rep["choices"]))
     r = run_jobs([j], 1, 600)[0]
     print(json.dumps(dict(obligation=rep["obligation"], reproduced=bool(r.get("failures")), failures=r.get("failures"), error=r.get("error")), indent=1, default=str))
